@@ -3,7 +3,7 @@
    population parameters]; Model/Layout.v describes that layout for every composition, Model/PopModels.v the
    population terms and transforms, Model/LogLik.v the individual likelihoods; harness/popspec.py assembles
    them into the specification sum that chi's value is certified against on every run. *)
-From Coq Require Import Reals List Arith Bool.
+From Coq Require Import Reals List Arith Bool Permutation.
 From Chi Require Import Base.RSum Base.Score Model.Layout Model.PopModels Model.LogLik Proofs.Layout.
 Import ListNotations.
 
@@ -40,6 +40,43 @@ Proof. unfold hll_spec. rewrite ssum_map_Fin. reflexivity. Qed.
 Theorem C02_score_is_sum : forall p ls, hll_spec (Fin p) (map Fin ls) = Fin (p + Rsum ls).
 Proof. exact hll_finite. Qed.
 
+(* (4) the score does not depend on the order in which the individuals are listed; it is -inf as soon as one
+   individual's likelihood is, and finite exactly when the population part and every individual part are *)
+Lemma splus_comm a b : splus a b = splus b a.
+Proof. destruct a, b; cbn; try reflexivity. now rewrite Rplus_comm. Qed.
+Lemma splus_assoc a b c : splus a (splus b c) = splus (splus a b) c.
+Proof. destruct a, b, c; cbn; try reflexivity. now rewrite Rplus_assoc. Qed.
+Lemma ssum_perm l l' : Permutation l l' -> ssum l = ssum l'.
+Proof.
+  induction 1 as [|x l l' _ IH|x y l|l l' l'' _ IH1 _ IH2]; cbn [ssum].
+  - reflexivity.
+  - now rewrite IH.
+  - now rewrite !splus_assoc, (splus_comm y x).
+  - now rewrite IH1.
+Qed.
+Lemma hll_perm pop l l' : Permutation l l' -> hll_spec pop l = hll_spec pop l'.
+Proof. intros H. unfold hll_spec. now rewrite (ssum_perm _ _ H). Qed.
+Lemma ssum_neginf l : In NegInf l -> ssum l = NegInf.
+Proof.
+  induction l as [|a l IH]; cbn [In ssum]; [intros []|]. intros [->|H]; [reflexivity|].
+  rewrite (IH H). now destruct a.
+Qed.
+Lemma hll_neginf pop l : In NegInf l -> hll_spec pop l = NegInf.
+Proof. intros H. unfold hll_spec. rewrite (ssum_neginf _ H). now destruct pop. Qed.
+Lemma sfinite_splus a b : sfinite (splus a b) = sfinite a && sfinite b.
+Proof. destruct a, b; reflexivity. Qed.
+Lemma sfinite_ssum l : sfinite (ssum l) = forallb sfinite l.
+Proof. induction l as [|a l IH]; cbn [ssum forallb]; [reflexivity|]. now rewrite sfinite_splus, IH. Qed.
+Lemma hll_finite_iff pop l : sfinite (hll_spec pop l) = sfinite pop && forallb sfinite l.
+Proof. unfold hll_spec. now rewrite sfinite_splus, sfinite_ssum. Qed.
+Theorem C02_individual_order_free : forall pop l l', Permutation l l' -> hll_spec pop l = hll_spec pop l'.
+Proof. exact hll_perm. Qed.
+Theorem C02_one_neginf_individual : forall pop l, In NegInf l -> hll_spec pop l = NegInf.
+Proof. exact hll_neginf. Qed.
+Theorem C02_finite_iff_all_finite : forall pop l,
+  sfinite (hll_spec pop l) = sfinite pop && forallb sfinite l.
+Proof. exact hll_finite_iff. Qed.
+Close Scope R_scope.
 Example C02_nonvacuous :
   let c := [ {| sk := KPooled; sdim := 2; scov := None |}; {| sk := KGauss; sdim := 1; scov := None |};
              {| sk := KHetero; sdim := 1; scov := None |}; {| sk := KLogNormal; sdim := 1; scov := None |} ] in
